@@ -224,7 +224,6 @@ def run(res, tier, build_ok):
 
                 class Boom(Exception):
                     pass
-                boom = Boom("injected")
                 kw0 = c01.finalize_kwargs(c, base_cases[0], rng)
                 blocksize = kw0.pop("blocksize", 0) if not c["cls"].startswith("ATA") else 0
                 args = {k: v for k, v in kw0.items() if k in required or (k not in optional)}
@@ -235,16 +234,22 @@ def run(res, tier, build_ok):
                     args["service_action"] = ci
                 if meth == "persistentreserveout":
                     args.setdefault("service_action", 0)
-                fac, dev = devices.attach(enum0, blocksize=blocksize)
-                dev.fail = boom
-                try:
-                    getattr(fac, meth)(**args)
-                    got = "returned"
-                except Exception as e:
-                    got = e
-                if got is not boom or len(dev.calls) != 1 or dev.calls[0][0].result != {}:
-                    res.violation("facade=%s device error" % meth, "SCSI.%s does not pass a device error on unchanged / decodes the untouched buffer" % meth,
-                                  {"method": meth, "got": str(got)[:100], "sent": len(dev.calls)})
+                # whatever the device raises - also the built-in exception types - is passed on as is
+                for boom in (Boom("injected"), TypeError("injected"), ValueError("injected"), KeyError("injected"),
+                             AttributeError("injected"), RuntimeError("injected"), OSError(5, "injected"), NotImplementedError("injected")):
+                    fac, dev = devices.attach(enum0, blocksize=blocksize)
+                    dev.fail = boom
+                    try:
+                        getattr(fac, meth)(**args)
+                        got = "returned"
+                    except Exception as e:
+                        got = e
+                    if got is not boom or len(dev.calls) != 1 or dev.calls[0][0].result != {}:
+                        res.violation("facade=%s device error %s" % (meth, type(boom).__name__),
+                                      "SCSI.%s: a %s raised by the device is not passed on unchanged after exactly one send (got %s, %d sent)" % (
+                                          meth, type(boom).__name__, str(got)[:60], len(dev.calls)),
+                                      {"method": meth, "exception": type(boom).__name__, "got": str(got)[:100], "sent": len(dev.calls)})
+                        break
                 res.count("device failure injections")
                 reqs.append(("facaderun %d ok err ok" % (1 if m["unmarshall"] is not None else 0), "ok execs=1 trace=c,e raised", meth))
                 break
